@@ -257,6 +257,22 @@ def validate_trace(tlc_trace_path, tag):
     return res
 
 
+def validate_cross(merged_trace_path, tag):
+    """cross-instance monitors (lanes / copies, replica, save-load) over a merged trace"""
+    rc, out, secs = run_tlc("CrossTrace.tla", "CrossTrace.cfg", os.path.join(WORK, "meta", tag), env={"TRACE": merged_trace_path},
+                            workers=1, heap="6g", timeout=3000)
+    res = {"findings": [], "error": None, "secs": round(secs, 1)}
+    got = False
+    for p in _collect_printed(out):
+        if "MONITOR-FINDINGS" in p[:26]:
+            got = True
+            for m in re.finditer(r'<<\s*"(C\d+)",\s*(\d+),\s*"([^"]*)"\s*>>', p):
+                res["findings"].append((m.group(1), int(m.group(2)), m.group(3)))
+    if not got:
+        res["error"] = out[-3000:]
+    return res
+
+
 # ----------------------------------------------------------------------------- evidence
 
 def write_evidence(prop, tier, seed, level, coverage, wall_s, violations, assumptions=None):
